@@ -129,6 +129,11 @@ type Control struct {
 	ErrAtRead map[int]bool // read-call indices (separate counter) that fail once
 	Reads    int
 	ErrFired int
+	// an I/O error that lasts: the mutations numbered ErrFrom .. ErrFrom+ErrLen-1 whose kind is of
+	// ErrClass fail with ErrInjected instead of executing ("any"; "nospace": everything that adds
+	// data, removals and renames go through; "rename": renames only)
+	ErrFrom, ErrLen int
+	ErrClass        string
 	ReadOnly bool
 	RoBreach []string
 	Perm     *Rand
@@ -233,13 +238,48 @@ func (c *Control) gate2(kind string, mut bool, detail, traceDetail string) (cras
 		c.logf("%s %s(%s) -> CRASH", c.Name, kind, detail)
 		return true, ErrFrozen
 	}
-	if c.ErrAtMut[idx] {
+	if c.ErrAtMut[idx] || (c.ErrLen > 0 && idx >= c.ErrFrom && idx < c.ErrFrom+c.ErrLen && errClassHas(c.ErrClass, kind)) {
 		c.ErrFired++
 		c.logf("%s %s(%s) -> injected error", c.Name, kind, detail)
 		return false, ErrInjected
 	}
 	c.logf("%s %s(%s)", c.Name, kind, detail)
 	return false, nil
+}
+
+func errClassHas(class, kind string) bool {
+	switch class {
+	case "rename":
+		return kind == "fs.Rename"
+	case "nospace":
+		switch kind {
+		case "fs.Remove", "fs.Rename", "RemoveRef", "index.Remove", "index.Clear":
+			return false
+		}
+		return true
+	}
+	return true
+}
+
+// ArmErr makes the next mutations fail: from the k-th mutation from now on, n of them, of a class.
+func (c *Control) ArmErr(class string, k, n int) {
+	c.mu.Lock()
+	c.ErrClass, c.ErrFrom, c.ErrLen = class, c.Muts+k, n
+	c.ErrFired = 0
+	c.mu.Unlock()
+}
+
+// ErrFiredCount tells how many calls failed since ArmErr.
+func (c *Control) ErrFiredCount() int { c.mu.Lock(); defer c.mu.Unlock(); return c.ErrFired }
+
+// DisarmErr ends the error condition and tells how many calls it made fail since ArmErr.
+func (c *Control) DisarmErr() int {
+	c.mu.Lock()
+	defer c.mu.Unlock()
+	c.ErrLen = 0
+	n := c.ErrFired
+	c.ErrFired = 0
+	return n
 }
 
 // SimRepo wraps a real ClockedRepo: every call is numbered, logged and can fail or
